@@ -1,9 +1,11 @@
 package main
 
 import (
+	"bytes"
 	"fmt"
 	"math/rand"
 	"strings"
+	"testing/fstest"
 
 	goat "github.com/philhassey/goatlang"
 )
@@ -414,6 +416,60 @@ func c12GenProgram(r *rand.Rand, id int) (string, []map[string]any) {
 	return b.String(), evs
 }
 
+// c12EvalProgram: a struct type, instances created before / between / after the declarations of its
+// methods (13, 14, 25, 26, 49 or 50 of them: the sizes at which a method table grows), every method
+// called on every instance at the end. Returned as one chunk or as several (methods in later chunks).
+func c12EvalProgram(r *rand.Rand, id int) ([]string, []map[string]any) {
+	nm := []int{13, 14, 25, 26, 49, 50}[id%6]
+	split := id%2 == 1
+	var evs []map[string]any
+	var chunks []string
+	var b strings.Builder
+	flush := func() {
+		if split && b.Len() > 0 {
+			chunks = append(chunks, b.String())
+			b.Reset()
+		}
+	}
+	b.WriteString("type T struct {\n\tF0 int\n\tF1 string\n}\n")
+	nvars := 0
+	newInst := func() {
+		fmt.Fprintf(&b, "v%d := &T{}\n", nvars)
+		evs = append(evs, map[string]any{"op": "new", "var": nvars + 1, "nfields": 2})
+		n := 3 + r.Intn(90)
+		fmt.Fprintf(&b, "v%d.F0 = %d\n", nvars, n)
+		evs = append(evs, map[string]any{"op": "write", "var": nvars + 1, "f": 0, "val": fmt.Sprint(n)})
+		fmt.Fprintf(&b, "v%d.F1 = \"s%d\"\n", nvars, n)
+		evs = append(evs, map[string]any{"op": "write", "var": nvars + 1, "f": 1, "val": fmt.Sprintf("s%d", n)})
+		nvars++
+	}
+	newInst()
+	flush()
+	cut1, cut2 := 1+r.Intn(12), nm-1-r.Intn(3)
+	for m := 0; m < nm; m++ {
+		if m == cut1 || m == cut2 {
+			flush()
+			newInst()
+			flush()
+		}
+		if m%2 == 0 {
+			fmt.Fprintf(&b, "func (t *T) M%d() int { return t.F0 }\n", m)
+		} else {
+			fmt.Fprintf(&b, "func (t *T) M%d() string { return t.F1 }\n", m)
+		}
+	}
+	flush()
+	newInst()
+	for v := 0; v < nvars; v++ {
+		for m := 0; m < nm; m++ {
+			fmt.Fprintf(&b, "println(\"M\", %d, v%d.M%d())\n", len(evs), v, m)
+			evs = append(evs, map[string]any{"op": "method", "var": v + 1, "f": m % 2, "val": fmt.Sprint(m)})
+		}
+	}
+	chunks = append(chunks, b.String())
+	return chunks, evs
+}
+
 func c12Script(c *Ctx, r *rand.Rand) {
 	nprog := c.pick(60, 1500)
 	var lines []map[string]any
@@ -421,9 +477,33 @@ func c12Script(c *Ctx, r *rand.Rand) {
 	var srcs []string
 	zero := map[string]string{"int": "0", "string": "", "bool": "false", "byte": "0", "float64": "0"}
 	_ = zero
-	for p := 0; p < nprog; p++ {
-		src, evs := c12GenProgram(r, p)
-		res := runMain(src, true)
+	nEval := c.pick(24, 200)
+	for p := 0; p < nprog+nEval; p++ {
+		var src string
+		var evs []map[string]any
+		var res RunResult
+		if p < nprog {
+			src, evs = c12GenProgram(r, p)
+			res = runMain(src, true)
+		} else {
+			// top-level code run in source order (Eval): instances exist BEFORE (some of) the methods of
+			// their type are declared; in every second program the methods arrive in later Eval calls
+			var chunks []string
+			chunks, evs = c12EvalProgram(r, p-nprog)
+			src = strings.Join(chunks, "\n// ---- next Eval call\n")
+			var out bytes.Buffer
+			vm := goat.New(goat.WithStdout(&out))
+			var err error
+			for _, ch := range chunks {
+				goat.VerifSetBudget(400000)
+				_, err = vm.Eval(fstest.MapFS{}, "m.go", ch)
+				goat.VerifSetBudget(-1)
+				if err != nil {
+					break
+				}
+			}
+			res = RunResult{Stdout: out.String(), Err: err, VM: vm}
+		}
 		if res.Failed() {
 			c.violate(hashKey(src), "struct program failed: "+firstLine(res.ErrString()), map[string]any{"source": src, "error": res.ErrString()})
 			continue
